@@ -298,6 +298,11 @@ simple_elem = st.one_of(integral, gv.strings, st.none(), st.booleans())
 simple_arrays = st.lists(simple_elem, max_size=6)
 rows = st.lists(st.fixed_dictionaries({'a': st.one_of(integral, st.integers(0, 3), st.sampled_from(['x', 'y', '1', '1.0', '2', '0', '2.0', 'true', 'null'])), 'b': any_number},
                                       optional={'c': st.one_of(st.none(), integral, gv.strings)}), max_size=6)
+# category values that collide when a bucket key is built from anything but the value itself: the number n next to the strings that
+# spell it, in either host spelling
+rows_agg = st.lists(st.fixed_dictionaries({'a': st.sampled_from([0, 1, 2, 1, 2, '0', '1', '2', '1.0', '2.0', '0.0', None, True, 'true', 'null']),
+                                           'b': st.one_of(integral, integral, any_number)}, optional={'c': st.sampled_from([1, '1', '1.0', None])}),
+                    min_size=2, max_size=8)
 nested = gv.values(2, st.one_of(st.none(), st.booleans(), any_number, gv.strings), 4)
 EXPRS = ['a > 1', 'b', 'a + b', 'a == b', 'a * 2', 'stringNew(a)', 'a % 2 == 0', 'n + a', 'mathFloor(b)']
 ISO = ['2020-01-02', '2020-01-02T03:04:05Z', '2020-01-02T03:04:05.678+01:00', '2020-13-01', 'x']
@@ -348,6 +353,8 @@ def arg_strategy(spec, fname, length_hint):
         return st.one_of(gv.strings, st.sampled_from(['abc', 'a1b22c333', '12', '1.5', 'ff', 'a,b,c', ' x ', 'hello world', 'aXbXc']),
                          st.sampled_from(['abc', 'a1b22c333', 'hello world', 'aXbXc', 'ab']))
     if t == 'array':
+        if fname == 'dataAggregate' and name == 'data':
+            return st.one_of(rows, rows_agg, rows_agg)
         if name in ('data', 'leftData', 'rightData'):
             return rows
         if name == 'sorts':
@@ -362,8 +369,8 @@ def arg_strategy(spec, fname, length_hint):
     if t == 'object':
         if name == 'aggregation':
             return st.fixed_dictionaries({'measures': st.lists(st.fixed_dictionaries(
-                {'field': st.sampled_from(['a', 'b']), 'function': st.sampled_from(['count', 'sum', 'min', 'max', 'average', 'stddev'])}),
-                min_size=1, max_size=2)}, optional={'categories': st.lists(st.sampled_from(['a', 'c']), max_size=2)})
+                {'field': st.sampled_from(['a', 'b', 'b', 'b']), 'function': st.sampled_from(['count', 'sum', 'min', 'max', 'average', 'stddev'])}),
+                min_size=1, max_size=2)}, optional={'categories': st.lists(st.sampled_from(['a', 'a', 'c']), max_size=2)})
         if name == 'variables':
             return st.fixed_dictionaries({'n': integral})
         if name == 'types':
